@@ -197,6 +197,14 @@ def plan_C19(seed, run, engine, tier="quick", entry=None):
         k2 = G.gen_knobs(rng, solver, p, fi, gs, ample=True)
         k2["fit_intercept"] = k.get("fit_intercept", False)
         ops.append(dict(op="solve", start="buffers", knobs=k2, faults={}, storage=prob["storage"]))
+    # a tolerance below the rounding noise of the gradient can never be met and only burns the
+    # ample budgets (degenerate data often has a gradient scale near zero)
+    Xa = np.abs(np.asarray(prob["data"]["X"], dtype=float))
+    ya = np.abs(np.asarray(prob["data"]["y"], dtype=float))
+    floor = 1e-13 * max(float(Xa.max(initial=0.0)), 1e-300) * max(float(ya.max(initial=0.0)), 1.0)
+    for o in ops:
+        if o["knobs"]["tol"] < floor:
+            o["knobs"]["tol"] = float(G.sig3(floor, 3))
     plan = P._mk("C19", seed, run, engine, prob, ops, rng)
     if entry is not None:
         plan["forced_entry"] = int(entry)
